@@ -111,7 +111,14 @@ def main():
         if r.returncode:
             sys.exit("patch does not apply: " + r.stderr)
     checks = (a.checks or meta.get("property")).split(",")
-    meta.setdefault("checks", {}).update(run_checks(a.id, checks, a.tier))
+    new = run_checks(a.id, checks, a.tier)
+    old = meta.setdefault("checks", {})
+    for c, v in new.items():
+        if v["exit"] == 2 and c in old and old[c].get("exit") == 1:
+            # model failure (time-out, resource exhaustion): inconclusive, keep the earlier conclusive result
+            old[c]["last_rerun"] = "inconclusive (exit 2): " + v.get("stderr_tail", "")[-120:]
+        else:
+            old[c] = v
     meta["detected_by"] = sorted(c for c, v in meta["checks"].items() if v["exit"] == 1)
     meta["ran"] = "git apply in scratch worktree %s; cmake --build + ctest there; demo with/without; tools/check.py <id> --tier %s with VERIF_REPO=%s" % (WT, a.tier, WT)
     json.dump(meta, open(os.path.join(d, "meta.json"), "w"), indent=1)
